@@ -3,8 +3,139 @@
 identical terms, and every draw is served by the generator the user supplied
 (constructor, sampling call, top-level Aspire.sample_posterior)."""
 
-from harness.common import main
+import contextlib
+import types
+
+import numpy as np
+
+from harness.common import core, main, sx, z3
 from harness.loop_base import LoopCheck
+
+# ---------------------------------------------------------------------------
+# flow construction: which randomness the network is built from
+#
+# torch's global generator and JAX's keys are modelled symbolically: seeding is an
+# uninterpreted function of the seed, drawing advances the state, splitting / folding a
+# key are uninterpreted functions of the key.  Everything else a process could consult
+# (the salted hash() of a string, the clock, ids, the python / numpy global generators)
+# is an environment stub that returns a DIFFERENT value in each of the two constructions.
+
+
+class TorchRngModel:
+    def __init__(self, ctx, tag):
+        self.ctx = ctx
+        self.state = z3.Real(f"torch_state0_{tag}")  # arbitrary: whatever ran before
+        self.last_seed = z3.Real(f"torch_initial_seed_{tag}")
+        self.SEED = z3.Function("SEED", core.R, core.R)
+        self.NEXT = z3.Function("NEXT", core.R, core.R)
+        self.calls = []
+
+    def manual_seed(self, s):
+        t = sx.term(sx.asarray(s))
+        self.state = self.SEED(t)
+        self.last_seed = t
+        self.calls.append(("manual_seed", t))
+        return self
+
+    def initial_seed(self):
+        return sx.Array(self.last_seed, sx.int64)
+
+    def seed(self):
+        self.state = z3.Real(f"torch_reseed_{len(self.calls)}")
+        self.calls.append(("seed", None))
+        return 0
+
+    def draw(self):
+        st = self.state
+        self.state = self.NEXT(st)
+        return st
+
+
+class _FakeNet:
+    """zuko.flows.<Class> stand-in: construction initialises the weights from the
+    global generator's current state."""
+
+    built = []
+
+    def __init__(self, *a, **k):
+        self.init_state = _ENV["torch"].draw()
+        _FakeNet.built.append(self)
+
+    def to(self, **k):
+        return self
+
+    def compile(self):
+        return self
+
+
+_ENV = {}
+
+
+def _torch_shim(model):
+    t = types.SimpleNamespace()
+    t.manual_seed = model.manual_seed
+    t.initial_seed = model.initial_seed
+    t.seed = model.seed
+    t.get_default_dtype = lambda: "float32"
+    t.device = lambda d=None: d
+    t.float32, t.float64 = "float32", "float64"
+    t.no_grad = contextlib.nullcontext
+    t.Generator = lambda *a, **k: types.SimpleNamespace(manual_seed=model.manual_seed)
+    return t
+
+
+class KeyObj:
+    def __init__(self, term):
+        self.term = term
+
+
+def _jrandom_shim():
+    KEY = z3.Function("KEY", core.R, core.R)
+    S1 = z3.Function("SPLIT1", core.R, core.R)
+    S2 = z3.Function("SPLIT2", core.R, core.R)
+    FOLD = z3.Function("FOLD", core.R, core.R, core.R)
+    j = types.SimpleNamespace()
+    j.key = lambda s: KeyObj(KEY(sx.term(sx.asarray(s))))
+    j.PRNGKey = j.key
+    j.split = lambda k, num=2: (KeyObj(S1(k.term)), KeyObj(S2(k.term)))
+    j.fold_in = lambda k, d: KeyObj(FOLD(k.term, sx.term(sx.asarray(d))))
+    j.key_data = lambda k: k
+    return j
+
+
+@contextlib.contextmanager
+def _environment(run):
+    """Process-dependent sources, different in every run, visible to the aspire modules
+    that take part in flow construction (module-level names shadow the builtins)."""
+    import random as pyrandom
+    import time
+
+    import aspire.aspire as A
+    import aspire.flows.base as FB
+    import aspire.flows.jax.flows as JF
+    import aspire.flows.torch.flows as TF
+    import aspire.transforms as T
+
+    salt = 1111 * (run + 1)
+    mods = [A, FB, JF, TF, T]
+    fake = {"hash": lambda o: salt + len(str(o)), "id": lambda o: 7000 + salt}
+    saved = []
+    for m in mods:
+        for name, fn in fake.items():
+            saved.append((m, name, m.__dict__.get(name, _ENV)))
+            setattr(m, name, fn)
+    old_time, old_rand, old_np = time.time, pyrandom.random, np.random.randint
+    time.time = lambda: 1.7e9 + salt
+    pyrandom.random = lambda: 0.001 * salt % 1.0
+    try:
+        yield
+    finally:
+        time.time, pyrandom.random = old_time, old_rand
+        for m, name, v in saved:
+            if v is _ENV:
+                delattr(m, name)
+            else:
+                setattr(m, name, v)
 
 
 class C20(LoopCheck):
@@ -12,10 +143,16 @@ class C20(LoopCheck):
     props = {"C20"}
     flows = ("rng",)
     adaptive_N3 = ()
-    required_labels = ["c20/no_fresh_generator", "c20/user_generator_used", "c20/identical/ladder", "c20/generator_routed_unchanged"]
+    required_labels = ["c20/no_fresh_generator", "c20/user_generator_used", "c20/identical/ladder", "c20/generator_routed_unchanged", "c20/construction/seeded_from_user_seed", "c20/construction/same_in_both_processes"]
 
     def configs(self, tier):
-        out = []
+        out = [
+            {"name": "construction-zuko", "kind": "construction", "route": "zuko", "flow": "construction"},
+            {"name": "construction-flowjax", "kind": "construction", "route": "flowjax", "flow": "construction"},
+            {"name": "construction-precond-zuko", "kind": "construction", "route": "precond_zuko", "flow": "construction"},
+            {"name": "construction-precond-flowjax", "kind": "construction", "route": "precond_flowjax", "flow": "construction"},
+            {"name": "construction-aspire-init_flow", "kind": "construction", "route": "init_flow", "flow": "construction"},
+        ]
         for c in super().configs(tier):
             if c["n_final"] and tier == "quick" and c["schedule"] != "fixed2":
                 continue
@@ -30,7 +167,117 @@ class C20(LoopCheck):
                 out.append(c2)
         return out
 
+    def ctx_for(self, cfg, seed):
+        if cfg.get("kind") == "construction":
+            return sx.Ctx(self.pid, D=1, seed=seed, timeout_ms=60000)
+        return super().ctx_for(cfg, seed)
+
+    def harness(self, cfg):
+        if cfg.get("kind") == "construction":
+            return self.h_construction(cfg)
+        return super().harness(cfg)
+
+    def h_construction(self, cfg):
+        route = cfg["route"]
+
+        def h(ctx):
+            import aspire.aspire as A
+            import aspire.flows.jax.flows as JF
+            import aspire.flows.torch.flows as TF
+            import aspire.transforms as T
+
+            user_seed = sx.Array(z3.Real("user_seed"), sx.int64)
+            user_key = KeyObj(z3.Real("user_key"))
+            seen = []  # per run: what the network was built from
+            for run in range(2):
+                model = TorchRngModel(ctx, run)
+                _ENV["torch"] = model
+                _FakeNet.built = []
+                got = {}
+                saved = (TF.torch, TF.zuko, JF.jrandom, JF.get_flow, T.get_flow_wrapper, A.get_flow_wrapper)
+                TF.torch = _torch_shim(model)
+                TF.zuko = types.SimpleNamespace(flows=types.SimpleNamespace(MAF=_FakeNet, NSF=_FakeNet))
+                JF.jrandom = _jrandom_shim()
+                JF.get_flow = lambda key=None, **k: got.setdefault("jax_network_key", key) and types.SimpleNamespace()
+
+                class Recording:
+                    xp = sx
+
+                    def __init__(self, dims=None, device=None, data_transform=None, **kw):
+                        got["flow_kwargs"] = kw
+
+                    def fit(self, x, **k):
+                        return None
+
+                    def forward(self, x, xp=None):
+                        return x, sx.zeros(x.shape[0])
+
+                try:
+                    with _environment(run):
+                        if route == "zuko":
+                            f = TF.ZukoFlow(dims=2, seed=user_seed, data_transform=T.IdentityTransform(xp=sx))
+                            got["torch_network_state"] = _FakeNet.built[-1].init_state if _FakeNet.built else None
+                        elif route == "flowjax":
+                            f = JF.FlowJax(dims=2, key=user_key, data_transform=T.IdentityTransform(xp=sx))
+                            got["jax_key_after"] = f.key
+                        elif route in ("precond_zuko", "precond_flowjax"):
+                            T.get_flow_wrapper = lambda backend="zuko", flow_matching=False: (Recording, sx)
+                            kw = {"seed": user_seed} if route == "precond_zuko" else {"key": user_key}
+                            tr = T.FlowPreconditioningTransform(parameters=["a", "b"], flow_backend="zuko" if route == "precond_zuko" else "flowjax", xp=sx, flow_kwargs=kw, bounded_to_unbounded=False, affine_transform=False)
+                            tr.fit(sx.sym("fitx", (2, 2)))
+                        else:
+                            A.get_flow_wrapper = lambda backend="zuko", flow_matching=False: (Recording, sx)
+                            a = A.Aspire(log_likelihood=None, log_prior=None, dims=2, parameters=["a", "b"], xp=sx, seed=user_seed, key=user_key)
+                            a.init_flow()
+                except (core.PathCut, core.Infeasible, core.Inconclusive, core.HarnessError):
+                    raise
+                except Exception as e:  # noqa: BLE001
+                    ctx.prove(False, "c20/construction/raises", detail={"route": route, "exception": repr(e)})
+                    return
+                finally:
+                    TF.torch, TF.zuko, JF.jrandom, JF.get_flow, T.get_flow_wrapper, A.get_flow_wrapper = saved
+                seen.append((model, got))
+
+            def tm(v):
+                if isinstance(v, KeyObj):
+                    return v.term
+                if isinstance(v, sx.Array):
+                    return sx.term(v)
+                if z3.is_expr(v):
+                    return v
+                return None
+
+            (m0, g0), (m1, g1) = seen
+            if route == "zuko":
+                # whatever the global generator did before, the network is built from the
+                # state the user's seed determines
+                for m, g in seen:
+                    st = g.get("torch_network_state")
+                    ctx.prove(st is not None and st.eq(m.SEED(sx.term(user_seed))) or (st is not None and ctx_equal(ctx, st, m.SEED(sx.term(user_seed)))), "c20/construction/seeded_from_user_seed", detail={"route": route, "generator_calls": [c[0] for c in m.calls]})
+            keys = sorted(set(g0) | set(g1))
+            ctx.prove(len(keys) >= 1, "c20/construction/observed", detail={"route": route})
+            for k in keys:
+                a_, b_ = g0.get(k), g1.get(k)
+                if isinstance(a_, dict) or isinstance(b_, dict):
+                    a_, b_ = a_ or {}, b_ or {}
+                    ctx.prove(sorted(a_) == sorted(b_), "c20/construction/same_in_both_processes", detail={"route": route, "what": k})
+                    for kk in sorted(set(a_) & set(b_)):
+                        ta, tb = tm(a_[kk]), tm(b_[kk])
+                        if ta is not None and tb is not None:
+                            ctx.prove(ta == tb, "c20/construction/same_in_both_processes", detail={"route": route, "what": f"{k}[{kk}]"})
+                        else:
+                            ctx.prove(bool(a_[kk] == b_[kk]), "c20/construction/same_in_both_processes", detail={"route": route, "what": f"{k}[{kk}]", "run0": repr(a_[kk]), "run1": repr(b_[kk])})
+                else:
+                    ta, tb = tm(a_), tm(b_)
+                    if k == "torch_network_state":
+                        continue  # decided above (initial states of the two runs are independent)
+                    ctx.prove(ta is not None and tb is not None and ctx_equal(ctx, ta, tb), "c20/construction/same_in_both_processes", detail={"route": route, "what": k})
+
+        return h
+
     def replay(self, cex):
+        if cex["cfg"].get("kind") == "construction":
+            return replay_construction(cex)
         ok, msg = super().replay(cex)
         if cex.get("label") == "c20/generator_routed_unchanged":
             # this clause is decided by its own observation only (D10 symptoms on the
@@ -55,6 +302,95 @@ class C20(LoopCheck):
             "purified": {},
         }
         return [("C20-D10", cex)]
+
+
+def ctx_equal(ctx, a, b):
+    """a == b on the current path (solver query)."""
+    res, _ = ctx.check([a != b])
+    return res == "unsat"
+
+
+def replay_construction(cex):
+    """Concrete replay of a construction counterexample: the real flow wrappers with the
+    real torch / jax generators."""
+    import subprocess
+    import sys
+
+    route = cex["cfg"]["route"]
+    code = r"""
+import sys, hashlib
+import numpy as np
+route = sys.argv[1]
+def digest(arrs):
+    h = hashlib.sha256()
+    for a in arrs:
+        h.update(np.ascontiguousarray(np.asarray(a)).tobytes())
+    return h.hexdigest()
+if route in ("zuko", "precond_zuko"):
+    import torch
+    from aspire.flows.torch.flows import ZukoFlow
+    outs = []
+    for pre in (0, 3):
+        torch.manual_seed(1234)        # the state an earlier flow with the same seed left behind
+        for _ in range(pre):
+            torch.rand(5)
+        if route == "zuko":
+            f = ZukoFlow(dims=2, seed=1234)
+            outs.append(digest([p.detach().numpy() for p in f.flow.parameters()]))
+        else:
+            import aspire.transforms as T
+            rec = {}
+            class R:
+                def __init__(self, **kw): rec.update(kw)
+                def fit(self, x, **k): pass
+                def forward(self, x, xp=None): return x, np.zeros(len(x))
+            T.get_flow_wrapper = lambda backend="zuko", flow_matching=False: (R, np)
+            tr = T.FlowPreconditioningTransform(parameters=["a","b"], xp=np, flow_kwargs={"seed": 1234}, bounded_to_unbounded=False, affine_transform=False)
+            tr.fit(np.zeros((2,2)))
+            outs.append(str(rec.get("seed")))
+    print("RESULT", outs[0] if outs[0] == outs[1] else "DIFFERENT-WITHIN-PROCESS " + repr(outs))
+else:
+    import jax
+    if route == "flowjax":
+        from aspire.flows.jax.flows import FlowJax
+        f = FlowJax(dims=2, key=jax.random.key(7))
+        leaves = [l for l in jax.tree_util.tree_leaves(f._flow) if hasattr(l, "dtype") and getattr(l.dtype, "kind", "") == "f"]
+        print("RESULT", digest(leaves))
+    else:
+        import aspire.transforms as T, aspire.aspire as A
+        rec = {}
+        class R:
+            xp = np
+            def __init__(self, **kw): rec.update(kw)
+            def fit(self, x, **k): pass
+            def forward(self, x, xp=None): return x, np.zeros(len(x))
+        T.get_flow_wrapper = A.get_flow_wrapper = lambda backend="zuko", flow_matching=False: (R, np)
+        if route == "precond_flowjax":
+            tr = T.FlowPreconditioningTransform(parameters=["a","b"], flow_backend="flowjax", xp=np, flow_kwargs={"key": jax.random.key(7)}, bounded_to_unbounded=False, affine_transform=False)
+            tr.fit(np.zeros((2,2)))
+        else:
+            a = A.Aspire(log_likelihood=None, log_prior=None, dims=2, parameters=["a","b"], xp=np, seed=1234, key=jax.random.key(7))
+            a.init_flow()
+        out = {k: (np.asarray(jax.random.key_data(v)).tolist() if k == "key" else v) for k, v in rec.items() if k in ("seed", "key")}
+        print("RESULT", sorted(out.items()))
+"""
+    import os
+
+    from harness.common import REPO
+
+    res = []
+    for salt in ("1", "2"):
+        env = dict(os.environ, PYTHONHASHSEED=salt, PYTHONPATH=os.path.join(REPO, "src"), JAX_PLATFORMS="cpu")
+        p = subprocess.run(["/venv/bin/python", "-c", code, route], env=env, capture_output=True, text=True, timeout=600)
+        line = [ln for ln in p.stdout.splitlines() if ln.startswith("RESULT")]
+        if not line:
+            return False, f"construction replay failed to run: {p.stderr[-300:]}"
+        res.append(line[0])
+    if any("DIFFERENT-WITHIN-PROCESS" in r for r in res):
+        return True, f"C20: two flows built with the same seed in one process differ: {res[0][:200]}"
+    if res[0] != res[1]:
+        return True, f"C20: the same construction in two processes (PYTHONHASHSEED=1 / 2) differs: {res[0][:120]} vs {res[1][:120]}"
+    return False, "flow construction is reproducible on this input"
 
 
 if __name__ == "__main__":
